@@ -89,6 +89,13 @@ func c20Cases(tier string, seed uint64) []fw.Case {
 		c.Name = fmt.Sprintf("snapshot-live/pool%d", pool)
 		cs = append(cs, fw.MkCase("snapshot-live", &c))
 	}
+	// one long-lived generator among tens of thousands of short-lived ones (more than the 65535 partitions a
+	// program has): whatever the late generators are given, their ids must not repeat the long-lived one's
+	{
+		c := c20Case{Kind: "many-generators", G: 66000, Rounds: 24}
+		c.Name = "many-generators/66000"
+		cs = append(cs, fw.MkCase("many-generators", &c))
+	}
 	// one fallback generator drawn concurrently
 	for _, g := range []int{2, 4, 16, 32} {
 		c := c20Case{Kind: "fbconc", G: g, N: total / 5}
@@ -197,6 +204,48 @@ func c20Run(c *c20Case, env *fw.Env, v *fw.V) {
 			v.Violate("duplicate-id", "several-generators", "%d duplicate ids among %d drawn from %d generators alive at once (first: %x)", n, len(all), c.G, d)
 		}
 		v.Add("ids", len(all))
+	case "many-generators":
+		tr := tracing.NewTracer(ctx)
+		g0, err := id.GetSno().NewIdGenerator(ctx, tr)
+		if err != nil {
+			v.Violate("generator-error", "sno", "%v", err)
+			return
+		}
+		seen := map[string]string{}
+		note := func(who string, idv id.Id) bool {
+			k := string(idv.Bytes())
+			if prev, dup := seen[k]; dup {
+				v.Violate("duplicate-id", "many-generators", "id %x issued twice: by %s and by %s (one long-lived generator, %d generators created so far)", k, prev, who, len(seen))
+				return false
+			}
+			seen[k] = who
+			return true
+		}
+		created, refused := 0, 0
+		for i := 0; i < c.G; i++ {
+			gctx, gcancel := context.WithCancel(ctx)
+			g, err := id.GetSno().NewIdGenerator(gctx, tr)
+			if err != nil {
+				// the program has used up its generators: later ones are refused (callers fall back)
+				refused++
+				gcancel()
+				continue
+			}
+			created++
+			if i%997 == 0 || i >= 65000 {
+				who := fmt.Sprintf("generator #%d", i+2)
+				for r := 0; r < c.Rounds; r++ {
+					if !note("the long-lived generator", g0.New()) || !note(who, g.New()) {
+						gcancel()
+						return
+					}
+				}
+			}
+			gcancel()
+		}
+		v.Add("ids", len(seen))
+		v.Add("generators-created", created)
+		v.Add("generators-refused", refused)
 	case "snapshot-live":
 		tr := tracing.NewTracer(ctx)
 		cfg := []byte(fmt.Sprintf(`{"partition":[201,7],"sequenceMin":0,"sequenceMax":%d}`, c.G))
@@ -420,7 +469,8 @@ func c20Run(c *c20Case, env *fw.Env, v *fw.V) {
 
 func init() {
 	fw.Register(&fw.Prop{
-		ID:    "C20",
+		ID:            "C20",
+		OnePerProcess: true, // a program has a fixed supply of generators: every case starts with a full one
 		Cases: c20Cases,
 		Run: func(c fw.Case, env *fw.Env) *fw.V {
 			v := fw.NewV(c)
@@ -433,7 +483,7 @@ func init() {
 			v.Nontrivial = v.Stats["ids"] > 1
 			return v
 		},
-		Rule:        "exact duplicate detection over all ids drawn: one sno generator x {1,2,4,8,16,32} goroutines x 1e6 (quick) / 5e6 (thorough) draws, twice each (a run spans many 4 ms time units of the id pool); 1..8 generators alive at once; snapshot/restore at PRNG points of the draw history (0 draws = immediately, a few, thousands, beyond the 65535-per-time-unit pool) with the restored generator's output merged with the output before the snapshot; snapshots taken while another goroutine draws at full speed from a generator with a small sequence pool (16 / 256 ids per time unit: mostly waiting out overflows), restored and drawn from at once, compared with everything issued before the snapshot; 16/64 fallback generators created behind a barrier x rounds; one fallback generator x {2,4,16,32} goroutines x 2e5 / 1e6 draws; flow and instance ids observed in the traces of 60 instances run 12 at a time in one program (on the default and on fallback generators); a case is non-trivial when it compared > 1 id; distinct = descriptor hash; 'measured.ids' = ids compared",
+		Rule:        "exact duplicate detection over all ids drawn: one sno generator x {1,2,4,8,16,32} goroutines x 1e6 (quick) / 5e6 (thorough) draws, twice each (a run spans many 4 ms time units of the id pool); 1..8 generators alive at once; one long-lived generator among 66 000 short-lived ones created one after the other (more than a program's supply), sampled late generators drawn alternately with the long-lived one; snapshot/restore at PRNG points of the draw history (0 draws = immediately, a few, thousands, beyond the 65535-per-time-unit pool) with the restored generator's output merged with the output before the snapshot; snapshots taken while another goroutine draws at full speed from a generator with a small sequence pool (16 / 256 ids per time unit: mostly waiting out overflows), restored and drawn from at once, compared with everything issued before the snapshot; 16/64 fallback generators created behind a barrier x rounds; one fallback generator x {2,4,16,32} goroutines x 2e5 / 1e6 draws; flow and instance ids observed in the traces of 60 instances run 12 at a time in one program (on the default and on fallback generators); a case is non-trivial when it compared > 1 id; distinct = descriptor hash; 'measured.ids' = ids compared",
 		Assumptions: []string{"wall-clock regressions (sno's drift branch) cannot be injected and are not claimed"},
 		Batch:       2,
 		MaxShards:   6,
